@@ -1788,4 +1788,168 @@ theorem lruEvict_full (cfg : Cfg) (es : List (Key × Entry)) (choice : List Key)
     exact lruEvict_spec cfg es _ hkn hmax hover hv'
 
 
+/-! ## the latest insert wins; removed means gone; configuration at the insert -/
+
+
+/-- `kills op k`: the operation unconditionally replaces or removes whatever is stored under `k` -/
+def kills : Op → Key → Bool
+  | .insert _ key host qtype _ _ _ _ false, k => insKey key host qtype == k
+  | .remove key, k => key == k
+  | .removeFamily base, k => base != [] && baseKey k == base
+  | _, _ => false
+
+/-- like `step_AllE`, but the old fact about `k` only has to carry over when the step does not
+replace/remove `k` -/
+theorem step_AllE_kills {P Q : Key → Entry → Prop} (w : World) (op : Op)
+    (mono : ∀ k e, P k e → kills op k = false → Q k e)
+    (hins : ∀ now key host qtype ttl ans nAns ns, op = .insert now key host qtype ttl ans nAns ns false →
+      Q (insKey key host qtype) (insEntry w.cfg w.st.nextId now key host qtype ttl ans nAns ns))
+    (hlook : ∀ now key ign e e' r, op = .lookup now key ign → (key, e) ∈ w.st.entries → P key e →
+      lookupEntry w.cfg now ign e = (some e', r) → Q key e')
+    (hclone : ∀ c k e id, op = .reload c → P k e → w.st.nextId ≤ id → id < w.st.nextId + w.st.entries.length →
+      Q k (cloneForReload e id))
+    (hrd : ∀ now key e, op = .refreshDone now key → (key, e) ∈ w.st.entries → P key e →
+      e.refreshing = true → Q key { e with refreshing := false })
+    (h : AllE P w.st.entries) : AllE Q (step w op).1.st.entries := by
+  cases op with
+  | insert now key host qtype ttl ans nAns ns isIp =>
+    simp only [step, State.insert]
+    cases isIp with
+    | true => exact fun p hp => mono _ _ (h p hp) rfl
+    | false =>
+      simp only [Bool.false_eq_true, if_false]
+      intro p hp
+      rcases mem_store.mp hp with rfl | ⟨hp', hne⟩
+      · exact hins now key host qtype ttl ans nAns ns rfl
+      · exact mono _ _ (h p hp') (by simp only [kills, beq_eq_false_iff_ne, ne_eq]; exact fun hh => hne hh.symm)
+  | lookup now key ign =>
+    have hk : ∀ k, kills (.lookup now key ign) k = false := fun _ => rfl
+    simp only [step, State.lookup]
+    cases hf : find w.st.entries key with
+    | none => exact fun p hp => mono _ _ (h p hp) (hk _)
+    | some e0 =>
+      have hm := find_mem hf
+      cases hl : lookupEntry w.cfg now ign e0 with
+      | mk oe r =>
+        cases oe with
+        | none => simp only [hl]; exact fun p hp => mono _ _ (h p (mem_erase.mp hp).1) (hk _)
+        | some e' =>
+          simp only [hl]
+          intro p hp
+          rcases mem_store.mp hp with rfl | ⟨hp', _⟩
+          · exact hlook now key ign e0 e' r rfl hm (h _ hm) hl
+          · exact mono _ _ (h p hp') (hk _)
+  | janitor now choice =>
+    simp only [step]
+    intro p hp
+    exact mono _ _ (h p (janitor_subset _ _ _ _ p hp)) rfl
+  | reload c =>
+    simp only [step, State.reload]
+    intro p hp
+    obtain ⟨k, e, i, hm, h1, h2, rfl⟩ := mem_cloneAll hp
+    exact hclone c k e i rfl (h _ hm) h1 h2
+  | reconf c => exact fun p hp => mono _ _ (h p hp) rfl
+  | refreshDone now key =>
+    have hk : ∀ k, kills (.refreshDone now key) k = false := fun _ => rfl
+    simp only [step, State.refreshDone]
+    cases hf : find w.st.entries key with
+    | none => exact fun p hp => mono _ _ (h p hp) (hk _)
+    | some e =>
+      have hm := find_mem hf
+      simp only []
+      split
+      · rename_i hr
+        intro p hp
+        rcases mem_store.mp hp with rfl | ⟨hp', _⟩
+        · exact hrd now key e rfl hm (h _ hm) hr
+        · exact mono _ _ (h p hp') (hk _)
+      · exact fun p hp => mono _ _ (h p hp) (hk _)
+  | remove key =>
+    intro p hp
+    obtain ⟨hp', hne⟩ := mem_erase.mp hp
+    exact mono _ _ (h p hp') (by simp only [kills, beq_eq_false_iff_ne, ne_eq]; exact fun hh => hne hh.symm)
+  | removeFamily base =>
+    simp only [step, State.removeFamily]
+    split
+    · rename_i hb
+      exact fun p hp => mono _ _ (h p hp) (by simp [kills, hb])
+    · intro p hp
+      obtain ⟨hp', hne⟩ := List.mem_filter.mp hp
+      exact mono _ _ (h p hp') (by simp only [kills, Bool.and_eq_false_iff]; right; simpa using hne)
+
+
+/-- the configuration in force after a history that started under `c0` -/
+def cfgAfter (c0 : Cfg) : List Op → Cfg
+  | [] => c0
+  | .reload c :: ops => cfgAfter c ops
+  | .reconf c :: ops => cfgAfter c ops
+  | _ :: ops => cfgAfter c0 ops
+
+theorem cfgAfter_append (c0 : Cfg) (a b : List Op) : cfgAfter c0 (a ++ b) = cfgAfter (cfgAfter c0 a) b := by
+  induction a generalizing c0 with
+  | nil => rfl
+  | cons op a ih => cases op <;> simp [cfgAfter, ih]
+
+theorem run_cfg (ops : List Op) (w : World) : (run w ops).1.cfg = cfgAfter w.cfg ops := by
+  induction ops generalizing w with
+  | nil => rfl
+  | cons op ops ih =>
+    rw [run_cons, ih]
+    cases op <;> simp [cfgAfter, step]
+
+/-- the entry stored under `k` after the history `past` is the one written by the LAST insert of
+`past` that stores under `k`; no later operation of `past` replaced or removed `k`; its deadline TTL
+was computed with the configuration in force at that insert -/
+def LastIns (c0 : Cfg) (past : List Op) (k : Key) (e : Entry) : Prop :=
+  ∃ pre post key0 host0 ns,
+    past = pre ++ Op.insert e.src.t key0 host0 e.src.qtype e.src.ttl e.ans e.nAns ns false :: post ∧
+    (∀ o ∈ post, kills o k = false) ∧
+    k = insKey key0 host0 e.src.qtype ∧ e.src.host = (splitHost host0).2 ∧
+    e.src.eff = effTtl (cfgAfter c0 pre) e.src.host e.src.ttl
+
+theorem LastIns.congr {c0 : Cfg} {past : List Op} {k : Key} {e e' : Entry}
+    (hs : e'.src = e.src) (ha : e'.ans = e.ans) (hn : e'.nAns = e.nAns) (h : LastIns c0 past k e) :
+    LastIns c0 past k e' := by
+  unfold LastIns at *
+  rw [hs, ha, hn]; exact h
+
+theorem LastIns.snoc {c0 : Cfg} {past : List Op} {k : Key} {e : Entry} {op : Op}
+    (h : LastIns c0 past k e) (hk : kills op k = false) : LastIns c0 (past ++ [op]) k e := by
+  obtain ⟨pre, post, key0, host0, ns, h1, h2, h3⟩ := h
+  refine ⟨pre, post ++ [op], key0, host0, ns, by rw [h1]; simp, ?_, h3⟩
+  intro o ho
+  rcases List.mem_append.mp ho with ho | ho
+  · exact h2 o ho
+  · simp only [List.mem_singleton] at ho; subst ho; exact hk
+
+theorem step_LastIns (c0 : Cfg) (past : List Op) (w : World) (op : Op) (hc : w.cfg = cfgAfter c0 past)
+    (h : AllE (LastIns c0 past) w.st.entries) : AllE (LastIns c0 (past ++ [op])) (step w op).1.st.entries := by
+  apply step_AllE_kills (P := LastIns c0 past) w op (fun k e hk hkill => hk.snoc hkill) _ _ _ _ h
+  · intro now key host qtype ttl ans nAns ns hop
+    subst hop
+    exact ⟨past, [], key, host, ns, rfl, fun o ho => by simp at ho, rfl, rfl, by rw [← hc]; rfl⟩
+  · intro now key ign e e' r hop _ hP hl
+    subst hop
+    obtain ⟨h1, h2, h3, _⟩ := lookupEntry_preserves hl
+    exact (hP.snoc rfl).congr h1 h2 h3
+  · intro c k e id hop hP _ _
+    subst hop
+    exact (hP.snoc rfl).congr rfl rfl rfl
+  · intro now key e hop _ hP _
+    subst hop
+    exact (hP.snoc rfl).congr rfl rfl rfl
+
+theorem run_LastIns (ops : List Op) (c0 : Cfg) (past : List Op) (w : World) (hc : w.cfg = cfgAfter c0 past)
+    (h : AllE (LastIns c0 past) w.st.entries) : AllE (LastIns c0 (past ++ ops)) (run w ops).1.st.entries := by
+  induction ops generalizing past w with
+  | nil => simpa [run_nil] using h
+  | cons op ops ih =>
+    rw [run_cons]
+    have hc' : (step w op).1.cfg = cfgAfter c0 (past ++ [op]) := by
+      rw [cfgAfter_append, ← hc]
+      cases op <;> simp [cfgAfter, step]
+    have := ih (past ++ [op]) (step w op).1 hc' (step_LastIns c0 past w op hc h)
+    simpa using this
+
+
 end DaeVerif.C08
